@@ -35,7 +35,21 @@ func ToValid(s string) string {
 
 // RefIface is the reference rendering of an Interface value: encoding/json, HTML escaping off,
 // compact, no trailing newline; or the documented error string.
-func RefIface(v interface{}) (raw []byte, errStr string) {
+func RefIface(v interface{}) (raw []byte, errStr string) { return RefIfaceS(v, nil) }
+
+// RefIfaceS is RefIface under the InterfaceMarshalFunc the settings install.
+func RefIfaceS(v interface{}, s *Settings) (raw []byte, errStr string) {
+	if s != nil && s.IfaceMarshal == 2 {
+		return nil, fmt.Sprintf("marshaling error: %v", errCustomMarshal)
+	}
+	raw, errStr = refIfaceDefault(v)
+	if s != nil && s.IfaceMarshal == 1 && errStr == "" {
+		raw = append(append([]byte(`{"w":`), raw...), '}')
+	}
+	return raw, errStr
+}
+
+func refIfaceDefault(v interface{}) (raw []byte, errStr string) {
 	var buf bytes.Buffer
 	enc := json.NewEncoder(&buf)
 	enc.SetEscapeHTML(false)
@@ -186,7 +200,7 @@ func MatchJSON(n *jsonv.Node, in *Intent, s *Settings) error {
 		}
 		return matchFloat(n, float64(in.D)/float64(s.DurationFieldUnit), 64, s)
 	case IIface:
-		raw, es := RefIface(in.V)
+		raw, es := RefIfaceS(in.V, s)
 		if es != "" {
 			if n.Kind != jsonv.String || n.Str != ToValid(es) {
 				return fmt.Errorf("want marshal-error string %q, got %s", es, clip(n.Raw))
